@@ -49,6 +49,7 @@ pub fn gen_case(t: &mut Tape, tier: Tier) -> Option<Case> {
         3 => Kind::BubbleD3,
         _ => Kind::Universal,
     };
+    let mut kin_given: Option<Kin> = None;
     let g = match kind {
         Kind::Flower => {
             let d = t.range(1, 6);
@@ -82,7 +83,14 @@ pub fn gen_case(t: &mut Tape, tier: Tier) -> Option<Case> {
         }
         Kind::BubbleD3 => banana_graph(1, 3, true, vec![1.0, 1.0]),
         Kind::Universal => {
-            let g = gen::gen_phys_graph(t, 7, 4, 0.3, 4)?;
+            let g = if t.chance(0.2) {
+                // every accepted graph, also a disconnected one (physical component + massive vacuum component)
+                let p = gen::gen_phys_union(t, &gen::PhysOpts { max_e: 7, max_l: 4, min_omega: 0.3, dmax: 4, max_ops: 3, profile: gen::MODERATE })?;
+                kin_given = Some(p.kin);
+                p.g
+            } else {
+                gen::gen_phys_graph(t, 7, 4, 0.3, 4)?
+            };
             if g.d * g.num_loops() > 8 {
                 return None;
             }
@@ -92,9 +100,13 @@ pub fn gen_case(t: &mut Tape, tier: Tier) -> Option<Case> {
     if !(g.min_proper_omega() >= 0.3 || g.nedges() == 1) || !(g.dod() >= 0.35) {
         return None;
     }
-    let mut kin = gen::gen_kin(t, &g, 4);
+    let unions = kin_given.is_some();
+    let mut kin = match kin_given {
+        Some(k) => k,
+        None => gen::gen_kin(t, &g, 4),
+    };
     let nl = g.num_loops();
-    if nl >= 2 && t.chance(0.6) {
+    if nl >= 2 && !unions && t.chance(0.6) {
         // make sure relative signs between loop momenta occur: k_0 -> k_0 - k_1 style change of basis
         let (i, j) = (t.below(nl), t.below(nl - 1));
         let j = if j >= i { j + 1 } else { j };
@@ -323,7 +335,7 @@ fn check_d<const D: usize>(c: &Case, ctx: &mut Ctx) -> Result<(), Failure> {
 pub fn check(c: &Case, ctx: &mut Ctx) -> Result<(), Failure> {
     let g = &c.g;
     let ne = g.nedges();
-    if ne == 0 || ne > 9 || !(1..=6).contains(&g.d) || !g.is_connected() {
+    if ne == 0 || ne > 10 || !(1..=6).contains(&g.d) {
         fail!("bad-case", "graph outside the domain");
     }
     let nl = g.num_loops();
